@@ -87,6 +87,35 @@ pub fn run(case: &str, st: &mut Stats) -> Outcome {
             fails.push(format!("pool entry {i} ({:?}): {v}", prog.ops[i]));
         }
     }
+    // node identity must survive the observers: after weighted counts, node counts and cached
+    // semantic hashes on every pool entry, building the same program again in the same builder
+    // (up to the first run-time variable) must give the very same pointers
+    {
+        use rsdd::repr::{create_semantic_hash_map, DDNNFPtr, VarLabel, VarOrder, WmcParams};
+        use rsdd::util::semirings::RealSemiring;
+        use std::collections::HashMap;
+        let order = VarOrder::new(&prog.pos_to_var().iter().map(|v| VarLabel::new(*v as u64)).collect::<Vec<_>>());
+        let map = create_semantic_hash_map::<{ rsdd::constants::primes::U64_LARGEST }>(nv);
+        let real: WmcParams<RealSemiring> = WmcParams::new(HashMap::from_iter((0..nv).map(|v| (VarLabel::new(v as u64), (RealSemiring(1.0), RealSemiring(2.0))))));
+        let cut = prog.ops.iter().position(|o| matches!(o, Op::NewVar(_))).unwrap_or(prog.ops.len());
+        for p in pool.iter().take(cut) {
+            let _ = p.unsmoothed_wmc(&real);
+            let _ = p.count_nodes();
+            if cut == prog.ops.len() {
+                let _ = p.cached_semantic_hash(&order, &map);
+            }
+            let _ = p.semantic_hash(&map);
+        }
+        let mut pre = prog.clone();
+        pre.ops.truncate(cut);
+        let mut dummy = Stats::default();
+        let again = exec(&b, &pre, &mut dummy);
+        for i in 0..cut {
+            if again[i] != pool[i] || !b.eq(again[i], pool[i]) {
+                fails.push(format!("pool entry {i} ({:?}) built again after counts / hashes on the pool is a different pointer than the first time", prog.ops[i]));
+            }
+        }
+    }
     st.bump(if prog.lru.is_some() { "cache_lru" } else { "cache_all" });
     st.bump(if prog.tblcap == 0 { "table_shipped" } else { "table_small" });
     st.add("pool_pairs", (pool.len() * pool.len().saturating_sub(1) / 2) as u64);
